@@ -167,19 +167,34 @@ theorem step_ok {s s' : St} (g : Good s) {op : Op} (e : step s op = some s') : S
     simp only [step] at e
     split at e
     · rename_i c; have V := valid_facts c
-      exact ok_of (eff_mapChars h V.1 e) (by intro x hx; simp only [Spec.newVal, Option.some.injEq] at hx; exact hx)
+      exact ok_of (eff_mapChars h V.1 e) (by
+        intro x hx
+        simp only [Spec.newVal] at hx
+        cases ha : allSome (absVar s v) with
+        | none => rw [ha] at hx; cases hx
+        | some cc => rw [ha] at hx; simp only [Option.map_some, Option.some.injEq] at hx; exact hx)
     · cases e
   | lower v =>
     simp only [step] at e
     split at e
     · rename_i c; have V := valid_facts c
-      exact ok_of (eff_mapChars h V.1 e) (by intro x hx; simp only [Spec.newVal, Option.some.injEq] at hx; exact hx)
+      exact ok_of (eff_mapChars h V.1 e) (by
+        intro x hx
+        simp only [Spec.newVal] at hx
+        cases ha : allSome (absVar s v) with
+        | none => rw [ha] at hx; cases hx
+        | some cc => rw [ha] at hx; simp only [Option.map_some, Option.some.injEq] at hx; exact hx)
     · cases e
   | upper v =>
     simp only [step] at e
     split at e
     · rename_i c; have V := valid_facts c
-      exact ok_of (eff_mapChars h V.1 e) (by intro x hx; simp only [Spec.newVal, Option.some.injEq] at hx; exact hx)
+      exact ok_of (eff_mapChars h V.1 e) (by
+        intro x hx
+        simp only [Spec.newVal] at hx
+        cases ha : allSome (absVar s v) with
+        | none => rw [ha] at hx; cases hx
+        | some cc => rw [ha] at hx; simp only [Option.map_some, Option.some.injEq] at hx; exact hx)
     · cases e
   | substr v w st ln =>
     simp only [step] at e
